@@ -104,6 +104,13 @@ def run(ctx):
             spec = rng.choice([['pyramid', 2], ['tree', 2], ['path', 3]])
         fmt = p.rsplit('.', 1)[1]
         ctx.tally('graph argument', '%s construction %s + save' % (kind, spec[0]))
+        # options may be typed in any order: `save` stores the graph the formula is built on, wherever it stands
+        mods = {'simple': [['plantclique', 2], ['addedges', 1], ['splitedges', 1]], 'bipartite': [['plantbiclique', 1, 1], ['addedges', 1]], 'dag': []}[kind]
+        if mods and rng.random() < 0.5 and not any(t in spec for t in ('plantclique', 'addedges', 'splitedges', 'plantbiclique')):
+            groups = rng.sample(mods, rng.randint(1, len(mods))) + [['save', p]]
+            rng.shuffle(groups)
+            ctx.tally('graph argument', 'save before another option' if groups[-1][0] != 'save' else 'save last')
+            return [str(x) for x in spec] + [str(x) for g in groups for x in g], (lambda: cnfgen.readGraph(p, kind, fmt))
         return [str(x) for x in spec] + ['save', p], (lambda: cnfgen.readGraph(p, kind, fmt))
 
     def garg(kind):
